@@ -246,9 +246,11 @@ def slerp_threshold(ctx):
 
 
 def s_slerp(rng, flip=True):
-    """unit pair with relative quaternion angle log-uniform 1e-9 .. 3 (not inside the ulp-neighbourhood of the K*eps threshold), s grid"""
+    """unit pair with relative quaternion angle 0, 1e-13..1e-11 (small-angle branch), log-uniform 3e-6 .. 3, s grid"""
     q0 = rand_unit(rng, 4)
-    th = float(rng.choice([0.0, log_uniform(rng, 1e-9, 3.0), log_uniform(rng, 1e-5, 0.2), rng.uniform(0, 3.0)]))
+    # not in (1e-11, 3e-6): there theta = acos(dot) is rounding-dominated (dot = 1 - theta^2/2 within a few ulp of 1), and the
+    # model's and NumPy's dot products may round differently (C11 uses the same bands)
+    th = float(rng.choice([0.0, log_uniform(rng, 1e-13, 1e-11), log_uniform(rng, 3e-6, 3.0), log_uniform(rng, 1e-5, 0.2), rng.uniform(0, 3.0)]))
     q1 = hamilton(q0, np.r_[math.cos(th), math.sin(th) * rand_unit(rng)])
     if flip and rng.random() < 0.3:
         # the other sign of q1: only with shortest=True (the long way round between nearly antipodal quaternions divides by
@@ -428,13 +430,22 @@ class Oracle:
                          {'site': site, 'element': k, 'inputs_hex': hexl(inputs), 'inputs': np.asarray(inputs, dtype=float).flatten().tolist(),
                           'value': np.asarray(e, dtype=float).tolist() if prob != 'not-numeric' else repr(e), 'residual': r})
 
-    def call(self, site, kind, fn, inputs, multi=False):
+    GAP = 'oracle:tiny-rotation-vector:unitvec-threshold-gap:raises'
+
+    def call(self, site, kind, fn, inputs, multi=False, tiny=None):
+        """tiny: magnitude of the rotation vector handed to an exponential-coordinate constructor (Exp, EulerVec, trexp):
+        a raise for a magnitude in [10 eps, 100 eps] is the threshold gap between iszerovec (10 eps) and unitvec (100 eps)"""
         try:
             v = fn()
         except Exception as ex:  # a constructor / operator that raises on a valid input returns no member at all
             self.ctx.count('oracle:' + site)
-            self.ctx.fail(f'oracle:raises:{raise_site(ex)}:{type(ex).__name__}:{site.split(":")[0]}', f"{site} raises {type(ex).__name__} in {raise_site(ex)}: {str(ex)[:200]}",
-                          {'site': site, 'inputs_hex': hexl(inputs), 'inputs': np.asarray(inputs, dtype=float).flatten().tolist()})
+            rep = {'site': site, 'inputs_hex': hexl(inputs), 'inputs': np.asarray(inputs, dtype=float).flatten().tolist()}
+            if tiny is not None and 2e-15 <= tiny <= 2.3e-14 and isinstance(ex, TypeError):
+                self.ctx.fail(self.GAP, f"{site} raises TypeError ({str(ex)[:80]}) in {raise_site(ex)} for a rotation vector of magnitude {tiny:.3g}: "
+                              "iszerovec treats < 10 eps as zero, unitvec returns None up to 100 eps", rep)
+                return None
+            self.ctx.fail(f'oracle:raises:{raise_site(ex)}:{type(ex).__name__}:valid-operands',
+                          f"{site} raises {type(ex).__name__} in {raise_site(ex)}: {str(ex)[:200]}", rep)
             return None
         self.check(site, kind, v, inputs, multi)
         return v
@@ -444,6 +455,12 @@ class Oracle:
         worst = max([self.check_value(k2 or kind, e)[0] for e, k2 in [(o if isinstance(o, tuple) else (o, None)) for o in operands]] + [0.0])
         grade = 'valid-operands' if worst <= TOL else 'invalid-operands'
         replay = dict(replay, op=op, operands_hex=[hexl(o[0] if isinstance(o, tuple) else o) for o in operands], operand_residual=worst)
+        if op == 'explog' and isinstance(ex, TypeError) and grade == 'valid-operands':
+            angs = [rot_angle(o[0] if isinstance(o, tuple) else o, kind) for o in operands]
+            if angs and max(angs) <= 1e-13:
+                self.ctx.fail(self.GAP, f"{clsname}.Exp(X.log(twist=True)) raises TypeError in {raise_site(ex)} for a rotation of angle {max(angs):.3g}: "
+                              "iszerovec treats < 10 eps as zero, unitvec returns None up to 100 eps", replay)
+                return
         rej = rejected_by_constructor(ex)
         if rej is not None and grade == 'valid-operands':
             # the operator built its result and handed it to a class constructor with check=True, which refused it
@@ -528,20 +545,21 @@ class Oracle:
             self.call('transl2', 'T2', lambda: base.transl2(t3[:2]), t3[:2])
             self.call('SE3.Txyz', 'T3', lambda: SE3.Tx(t3).data + SE3.Ty(t3).data + SE3.Tz(t3).data + SE3(t3[0], t3[1], t3[2]).data + SE3(t3).data,
                       t3, multi=True)
-            w = rand_unit(rng) * float(rng.choice([log_uniform(rng, 1e-3, 1.0), rng.uniform(0, 7), math.pi + signed_mag(rng, 1e-12, 1e-3),
-                                                   2 * math.pi * rng.integers(1, 100) + rng.uniform(-3, 3)]))
-            self.call('SO3.EulerVec', 'R3', lambda: SO3.EulerVec(w).data, w, multi=True)
-            self.call('SE3.EulerVec', 'T3', lambda: SE3.EulerVec(w).data, w, multi=True)
-            self.call('UnitQuaternion.EulerVec', 'Q', lambda: UnitQuaternion.EulerVec(w).data, w, multi=True)
-            self.call('trexp:so3', 'R3', lambda: base.trexp(w), w)
-            self.call('SO3.Exp', 'R3', lambda: SO3.Exp(w).data, w, multi=True)
+            wm = float(rng.choice([log_uniform(rng, 1e-3, 1.0), rng.uniform(0, 7), math.pi + signed_mag(rng, 1e-12, 1e-3),
+                                   2 * math.pi * rng.integers(1, 100) + rng.uniform(-3, 3), log_uniform(rng, 1e-17, 1e-3), log_uniform(rng, 2.3e-15, 2.2e-14)]))
+            w = rand_unit(rng) * wm
+            self.call('SO3.EulerVec', 'R3', lambda: SO3.EulerVec(w).data, w, multi=True, tiny=wm)
+            self.call('SE3.EulerVec', 'T3', lambda: SE3.EulerVec(w).data, w, multi=True, tiny=wm)
+            self.call('UnitQuaternion.EulerVec', 'Q', lambda: UnitQuaternion.EulerVec(w).data, w, multi=True, tiny=wm)
+            self.call('trexp:so3', 'R3', lambda: base.trexp(w), w, tiny=wm)
+            self.call('SO3.Exp', 'R3', lambda: SO3.Exp(w).data, w, multi=True, tiny=wm)
             S = np.r_[self.trans(3) * 1e-3, w]
-            self.call('trexp:se3', 'T3', lambda: base.trexp(S), S)
-            self.call('SE3.Exp', 'T3', lambda: SE3.Exp(S).data, S, multi=True)
-            th2 = gen_angle(rng)
+            self.call('trexp:se3', 'T3', lambda: base.trexp(S), S, tiny=wm)
+            self.call('SE3.Exp', 'T3', lambda: SE3.Exp(S).data, S, multi=True, tiny=wm)
+            th2 = float(rng.choice([gen_angle(rng), gen_angle(rng), log_uniform(rng, 1e-17, 1e-3), log_uniform(rng, 2.3e-15, 2.2e-14)]))
             S2 = np.r_[self.trans(2) * 1e-3, th2]
-            self.call('trexp2:se2', 'T2', lambda: base.trexp2(S2), S2)
-            self.call('SE2.Exp', 'T2', lambda: SE2.Exp(S2).data, S2, multi=True)
+            self.call('trexp2:se2', 'T2', lambda: base.trexp2(S2), S2, tiny=abs(th2))
+            self.call('SE2.Exp', 'T2', lambda: SE2.Exp(S2).data, S2, multi=True, tiny=abs(th2))
             u = rand_unit(rng)
             self.call('rodrigues:unit-axis', 'R3', lambda: base.rodrigues(u, th2), np.r_[u, th2])
             o, a_ = self.pair()
@@ -567,19 +585,20 @@ class Oracle:
             self.call('SE2.norm', 'T2', lambda: SE2(T2n, check=False).norm().data, T2n, multi=True)
             # exponential of the logarithm / twist conversions (trlog: 84bd1d7, trlog2: c4462a7): members of every rotation
             # magnitude, incl. 1e-12..1e-1, pi - (1e-12..1e-1) and exact half-turns
-            mag = float(rng.choice([0.0, math.pi, log_uniform(rng, 1e-12, 1e-1), math.pi - log_uniform(rng, 1e-12, 1e-1), rng.uniform(0, math.pi)]))
+            mag = float(rng.choice([0.0, math.pi, log_uniform(rng, 1e-17, 1e-1), log_uniform(rng, 2.3e-15, 2.2e-14), math.pi - log_uniform(rng, 1e-12, 1e-1),
+                                    rng.uniform(0, math.pi)]))
             Rl = rot_from_axis_angle(rand_unit(rng), mag)
             Tl = np.eye(4)
             Tl[:3, :3], Tl[:3, 3] = Rl, self.trans(3) * float(rng.choice([1.0, 1e-3]))
             sg = float(rng.choice([-1.0, 1.0]))
             El = np.eye(3)
             El[:2, :2], El[:2, 2] = rot2(sg * mag), Tl[:2, 3]
-            self.call('SO3.Exp(log)', 'R3', lambda: SO3.Exp(SO3(Rl, check=False).log(twist=True)).data, Rl, multi=True)
-            self.call('SE3.Exp(log)', 'T3', lambda: SE3.Exp(SE3(Tl, check=False).log(twist=True)).data, Tl, multi=True)
+            self.call('SO3.Exp(log)', 'R3', lambda: SO3.Exp(SO3(Rl, check=False).log(twist=True)).data, Rl, multi=True, tiny=mag)
+            self.call('SE3.Exp(log)', 'T3', lambda: SE3.Exp(SE3(Tl, check=False).log(twist=True)).data, Tl, multi=True, tiny=mag)
             self.call('SE3.Twist3.SE3', 'T3', lambda: SE3(Tl, check=False).Twist3().SE3().data, Tl, multi=True)
             self.call('SE3.Twist3.exp', 'T3', lambda: SE3(Tl, check=False).Twist3().exp().data, Tl, multi=True)
-            self.call('SO2.Exp(log)', 'R2', lambda: SO2.Exp(SO2(El[:2, :2], check=False).log(twist=True)).data, El[:2, :2], multi=True)
-            self.call('SE2.Exp(log)', 'T2', lambda: SE2.Exp(SE2(El, check=False).log(twist=True)).data, El, multi=True)
+            self.call('SO2.Exp(log)', 'R2', lambda: SO2.Exp(SO2(El[:2, :2], check=False).log(twist=True)).data, El[:2, :2], multi=True, tiny=mag)
+            self.call('SE2.Exp(log)', 'T2', lambda: SE2.Exp(SE2(El, check=False).log(twist=True)).data, El, multi=True, tiny=mag)
             self.call('SE2.Twist2.SE2', 'T2', lambda: SE2(El, check=False).Twist2().SE2().data, El, multi=True)
             self.call('SE2.Twist2.exp', 'T2', lambda: SE2(El, check=False).Twist2().exp().data, El, multi=True)
             qv = rng.normal(size=4) * log_uniform(rng, 1e-3, 1e6)
@@ -913,6 +932,16 @@ def seeded(rng, f):
         return f()
     finally:
         np.random.set_state(state)
+
+
+def rot_angle(M, kind):
+    """rotation angle of the rotation block of a pose matrix, independent of the library"""
+    M = np.asarray(M, dtype=float)
+    if kind in ('R2', 'T2'):
+        return abs(math.atan2(M[1, 0], M[0, 0]))
+    R = M[:3, :3]
+    v = np.array([R[2, 1] - R[1, 2], R[0, 2] - R[2, 0], R[1, 0] - R[0, 1]]) / 2
+    return math.atan2(float(np.linalg.norm(v)), (float(np.trace(R)) - 1) / 2)
 
 
 def hamilton(p, q):
